@@ -53,7 +53,10 @@ fn attr(a: &Attribute, kind: &'static str) -> Node {
     let d = a.kind.directive().to_string();
     n.prop("directive", &d);
     // unparsed (foreign) attributes are verbatim; known ones are compared through their typed fields
-    n.prop("args", &normalised_args(&d, &attr_args(a)).join("\u{1f}"));
+    let args = normalised_args(&d, &attr_args(a));
+    n.prop("args", &args.join("\u{1f}"));
+    // (an empty list and a list of one empty string join to the same text)
+    n.prop("argc", &args.len().to_string());
     n.span = Some(sp(a.span()));
     n
 }
